@@ -456,4 +456,52 @@ theorem nodup_afterBarrier_set [DecidableEq E] (key : E → K) (lt : K → K →
   | cons a as ih => exact ih _ (nodup_setInsert key lt c a h)
 end setpending
 
+/-! ### insert / erase sequences -/
+
+section setops
+variable {E K X : Type}
+
+theorem mem_applySetOp [DecidableEq E] (key : E → K) (lt : K → K → Bool) (l : Local E X) (o : SetOp E) (x : E) :
+    x ∈ (applySetOp key lt l o).items ↔
+      (if o.elem = x then (match o with | .ins _ => True | .del _ => False) else x ∈ l.items) := by
+  cases o with
+  | ins y =>
+    simp only [applySetOp, SetOp.elem, mem_setInsert]
+    by_cases h : y = x
+    · subst h; simp
+    · simp [h]; intro e; exact absurd e.symm h
+  | del y =>
+    simp only [applySetOp, SetOp.elem, List.mem_filter]
+    by_cases h : y = x
+    · subst h; simp
+    · simp [h]; intro _ e; exact h e.symm
+
+theorem mem_after_setops [DecidableEq E] (key : E → K) (lt : K → K → Bool) (c : Local E X) (arr : List (SetOp E)) (x : E) :
+    x ∈ (afterBarrier (applySetOp key lt) c arr).items ↔ survives x (decide (x ∈ c.items)) arr = true := by
+  unfold afterBarrier survives
+  induction arr generalizing c with
+  | nil => simp
+  | cons o os ih =>
+    simp only [List.foldl_cons]
+    rw [ih]
+    congr 2
+    have := mem_applySetOp key lt c o x
+    by_cases h : o.elem = x
+    · simp only [h, if_true] at this ⊢
+      cases o <;> simp_all
+    · simp only [h, if_false] at this ⊢
+      simp [this]
+
+theorem survives_filter [DecidableEq E] (x : E) (b : Bool) (ops : List (SetOp E)) :
+    survives x b ops = survives x b (ops.filter (fun o => o.elem = x)) := by
+  unfold survives
+  induction ops generalizing b with
+  | nil => rfl
+  | cons o os ih =>
+    by_cases h : o.elem = x
+    · simp [h, ih]
+    · simp only [List.foldl_cons, h, if_false, List.filter_cons, decide_false]
+      exact ih b
+end setops
+
 end YgmVerif.Ser
